@@ -8,6 +8,7 @@ import (
 	"encoding/binary"
 	"fmt"
 	"math/big"
+	"strings"
 	"sync"
 	"sync/atomic"
 	"time"
@@ -417,11 +418,15 @@ type fault struct {
 	val   int // substitution kind
 }
 
+// Substitution kinds: 0..5 flip one bit of the 6-bit value of a base64 character
+// (= every single-bit flip of the binary message; for a character outside the
+// alphabet the corresponding bit of the byte is flipped), 6 flips the top bit of the
+// byte (never base64); thorough adds the values 0x00, 0xff, ',' and '='.
 func subValues(thorough bool) int {
 	if thorough {
-		return 6
+		return 11
 	}
-	return 2
+	return 7
 }
 
 func applyFault(msg []byte, f fault) []byte {
@@ -433,18 +438,22 @@ func applyFault(msg []byte, f fault) []byte {
 		return out
 	}
 	b := out[f.off]
-	switch f.val {
-	case 0:
-		b = substitute(b)
-	case 1:
+	switch {
+	case f.val < 6:
+		if i := strings.IndexByte(b64alpha, b); i >= 0 {
+			b = b64alpha[i^(1<<f.val)]
+		} else {
+			b ^= 1 << f.val
+		}
+	case f.val == 6:
 		b ^= 0x80
-	case 2:
+	case f.val == 7:
 		b = 0
-	case 3:
+	case f.val == 8:
 		b = 0xff
-	case 4:
+	case f.val == 9:
 		b = ','
-	case 5:
+	case f.val == 10:
 		b = '='
 	}
 	out[f.off] = b
